@@ -70,13 +70,13 @@ Print Assumptions c11_translated_into_msg.
 (* The other half of the bridge - the macro's decision which arms of the contract-level dispatch convert the response and
    the context (Interfaces::emit_dispatch_arms, MsgType::emit_ctx_dispatch_values of sylvia-derive, translated on every
    run: GenImpMacro.bridge_fns, Facts/BridgeRefine.v). *)
-Require Import SV.Model.GenImpMacro SV.Facts.MacroRefine SV.Facts.BridgeRefine.
+Require Import SV.Model.GenImpBridge SV.Facts.MacroRefine SV.Facts.BridgeRefine.
 
 (* For ANY list of attached interfaces and every kind: one arm per interface, in order; the arm converts the handler's
    response with IntoResponse exactly when the kind is exec or sudo and the interface is marked custom(msg), and never
    otherwise; every arm dispatches the interface's own variant with the context computed for that interface's markers. *)
-Theorem c11_translated_bridged_arms : forall k (l : list (value * bool * bool)), In k six_kinds ->
-  calls BR 2 "Interfaces::emit_dispatch_arms" [VRec "Interfaces" [("interfaces", VArr (map iface_v l))]; kind_v k]
+Theorem c11_translated_bridged_arms : forall k (l : list iface), In k six_kinds ->
+  calls BR 2 "Interfaces::emit_dispatch_arms" [ifaces_v l; kind_v k]
     (CVal (VArr (map (arm_spec k) l))).
 Proof. exact translated_dispatch_arms. Qed.
 
@@ -87,8 +87,8 @@ Theorem c11_translated_bridged_context : forall k (has_msg has_query : bool), In
 Proof. exact translated_ctx_dispatch_values. Qed.
 
 Example c11_translated_bridge_example :
-  arm_spec "Exec" (VStr "Cw1", true, false) <> arm_spec "Exec" (VStr "Cw1", false, false) /\
-  arm_spec "Query" (VStr "Cw1", true, false) = arm_spec "Query" (VStr "Cw1", true, false) /\
+  arm_spec "Exec" (VStr "cw1", VStr "Cw1", true, false) <> arm_spec "Exec" (VStr "cw1", VStr "Cw1", false, false) /\
+  arm_spec "Query" (VStr "cw1", VStr "Cw1", true, false) = arm_spec "Query" (VStr "cw1", VStr "Cw1", true, false) /\
   converts_response "Query" true = false /\ converts_response "Sudo" true = true /\
   ctx_spec "Exec" true <> ctx_spec "Exec" false /\ ctx_spec "Instantiate" true = ctx_spec "Instantiate" false.
 Proof. vm_compute. repeat split; discriminate. Qed.
